@@ -113,6 +113,8 @@ class Monitor(MemoryCacher):
 class _TimeStub:
     def __init__(self, world): self.w = world
     def sleep(self, s):
+        if getattr(self.w, 'forbid_wait', None): self.w.sym.fail(self.w.forbid_wait)
+        if getattr(self.w, 'interrupt_wait', False): raise KeyboardInterrupt("interrupted while waiting for a lock")
         self.w.sleeps += 1
         if self.w.sleeps > self.w.max_sleeps: self.w.sym.assume(False)     # cut: waiting longer is legal, nothing new happens
         self.w.havoc(); self.w.cacher._array.sync()
@@ -144,13 +146,14 @@ def _classify(v):
 
 OPS = ['get_ok','get_getter_raises','get_body_raises','rmv']
 
-@obligation('C19','rely_guarantee', bounds="one caller, ONE operation from {get_set ok, get_set with raising getter, get_set with raising body, rmv} started from the state between operations (the caller holds nothing - re-established by G3, so sequences of any length are covered inductively); inner cache fails on read / write / rmv or not; shared counter and cache membership havocked at every lock entry and sleep within invariant I (others' contribution in [-1,1]); spin loops unrolled once (twice in the thorough tier)",
+@obligation('C19','rely_guarantee', bounds="one caller, ONE operation from {get_set ok, get_set with raising getter, get_set with raising body, rmv} started from the state between operations (the caller holds nothing - re-established by G3, so sequences of any length are covered inductively); inner cache fails on read / write / rmv or not, or the caller is interrupted while waiting for a lock; shared counter and cache membership havocked at every lock entry and sleep within invariant I (others' contribution in [-1,1]); spin loops unrolled once (twice in the thorough tier)",
             functions=FUNCS, classify=_classify, budget={'quick':80,'thorough':600},
-            params=lambda tier: [dict(op=a, fail=f, unroll=(1 if tier=='quick' else 2)) for a in OPS for f in (None,'read','write','rmv')],
+            params=lambda tier: [dict(op=a, fail=f, unroll=(1 if tier=='quick' else 2)) for a in OPS for f in (None,'read','write','rmv','interrupt_wait')],
             stubs=["lock object -> havoc of shared counter and cache membership within I", "time.sleep -> havoc, unrolled", "_index -> 2-valued stub"])
 def rely_guarantee(sym, op, fail, unroll=1):
-    w, cacher = setup(sym, fail)
+    w, cacher = setup(sym, fail if fail != 'interrupt_wait' else None)
     w.max_sleeps = unroll
+    w.interrupt_wait = (fail == 'interrupt_wait')        # the caller is interrupted (Ctrl-C) while it sleeps waiting for a lock it does not hold yet
     key = 'k1'
     old_time = cc.time
     cc.time = _TimeStub(w)
@@ -170,15 +173,15 @@ def rely_guarantee(sym, op, fail, unroll=1):
                     sym.check(w.own(key) >= 1, "with-body runs without a read lock on the entry")
                     sym.check(bool(w.cached.get(key, False)), "with-body runs although the entry is not cached")
                     if op == 'get_body_raises': raise KeyError("body failed")
-        except (ValueError, KeyError, IOError):
+        except (ValueError, KeyError, IOError, KeyboardInterrupt):
             pass
         final_checks(sym, w, f"after {op}")
         sym.check(cacher._cache.getter_calls.get(key,0) <= 1, "getter ran more than once for one get_set")
     finally:
         cc.time = old_time
 
-@obligation('C19','nested', bounds="inside its own get_set block on k1 a caller calls rmv(k1) (must be refused with CobaException, no self-deadlock), get_set(k1) again (allowed), or get_set / rmv on another key in another slot (independent); everything is released afterwards",
-            functions=FUNCS, classify=_classify, params=lambda tier: [dict(inner=i) for i in ('rmv','get_set','other_get','other_rmv')])
+@obligation('C19','nested', bounds="inside its own get_set block on k1 a caller calls rmv(k1) (must be refused with CobaException, no self-deadlock), get_set(k1) again (allowed; also twice nested, followed by a third read or by an rmv that must be refused rather than waited for), or get_set / rmv on another key in another slot (independent); everything is released afterwards",
+            functions=FUNCS, classify=_classify, params=lambda tier: [dict(inner=i) for i in ('rmv','get_set','other_get','other_rmv','nested2_rmv','nested2_get')])
 def nested_same_key(sym, inner):
     w, cacher = setup(sym, None)
     w.max_sleeps = 0          # contention is the subject of C19.rely_guarantee; here every wait is cut at once
@@ -188,7 +191,17 @@ def nested_same_key(sym, inner):
         try:
             with cacher.get_set('k1', lambda: ('value-of','k1')) as v:
                 try:
+                    if inner in ('rmv','nested2_rmv','nested2_get'): w.forbid_wait = "self-deadlock: the caller waits for a lock on a key it holds a read lock on itself"
                     if inner == 'rmv': cacher.rmv('k1'); sym.fail("rmv inside a get_set block on the same key must be refused")
+                    elif inner in ('nested2_rmv','nested2_get'):
+                        with cacher.get_set('k1', lambda: ('value-of','k1')) as v2:
+                            sym.check(w.own('k1') >= 2, "two nested reads must both be counted")
+                            if inner == 'nested2_rmv':
+                                try: cacher.rmv('k1'); sym.fail("rmv inside two nested get_set blocks on the same key must be refused")
+                                except CobaException: pass
+                            else:
+                                with cacher.get_set('k1', lambda: ('value-of','k1')) as v3: sym.check(v3 == v, "third nested read gives another value")
+                        sym.check(w.own('k1') == 1, "leaving the inner block must release exactly one read entry")
                     elif inner == 'other_get':
                         with cacher.get_set('k2', lambda: ('value-of','k2')) as v2: sym.check(v2 == ('value-of','k2') and w.own('k1') >= 1, "nested get_set on another key")
                     elif inner == 'other_rmv':
@@ -198,25 +211,26 @@ def nested_same_key(sym, inner):
                             sym.check(v2 == v, "nested read gives another value")
                 except CobaException:
                     sym.check(inner == 'rmv', "nested read on the same key must be allowed")
+                finally: w.forbid_wait = None
         except CobaException:
             sym.fail("outer get_set raised CobaException")
         final_checks(sym, w, "after nested operations")
     finally:
         cc.time = old_time
 
-@obligation('C19','disk_control_flow', bounds="NOT symbolic: DiskCacher in a scratch directory, getter yielding 3 lines and raising ValueError / KeyboardInterrupt / SystemExit after j in {0,1,2,3(never)} lines, through ConcurrentCacher(DiskCacher) and directly: a failed population leaves no entry, the error propagates, a later get_set repopulates and serves the complete value; zero-length file is treated as absent",
-            functions=FUNCS, classify=_classify, params=lambda tier: [dict(j=j, wrap=wr, exc=x) for j in (0,1,2,3) for wr in (False,True) for x in ('ValueError','KeyboardInterrupt','SystemExit')])
-def disk_control_flow(sym, j, wrap, exc='ValueError'):
+@obligation('C19','disk_control_flow', bounds="NOT symbolic: DiskCacher in a scratch directory or a MemoryCacher, getter yielding 3 lines and raising ValueError / KeyboardInterrupt / SystemExit after j in {0,1,2,3(never)} lines, through ConcurrentCacher(DiskCacher) and directly: a failed population leaves no entry, the error propagates, a later get_set repopulates and serves the complete value; zero-length file is treated as absent",
+            functions=FUNCS, classify=_classify, params=lambda tier: [dict(j=j, wrap=wr, exc=x, inner=i) for j in (0,1,2,3) for wr in (False,True) for x in ('ValueError','KeyboardInterrupt','SystemExit') for i in ('disk','memory')])
+def disk_control_flow(sym, j, wrap, exc='ValueError', inner='disk'):
     EXC = {'ValueError':ValueError,'KeyboardInterrupt':KeyboardInterrupt,'SystemExit':SystemExit}[exc]
     d = tempfile.mkdtemp(prefix='c19_')
     try:
-        base = DiskCacher(d)
+        base = DiskCacher(d) if inner == 'disk' else MemoryCacher()
         cacher = ConcurrentCacher(base) if wrap else base
         def getter():
             for i in range(3):
                 if i == j: raise EXC("getter failed part-way")
                 yield f"line{i}"
-        if sym.flag('empty_file_first'): open(os.path.join(d,'key.gz'),'wb').close()
+        if inner == 'disk' and sym.flag('empty_file_first'): open(os.path.join(d,'key.gz'),'wb').close()
         try:
             with cacher.get_set('key', getter) as f: got = [l.rstrip('\n') for l in f]
             sym.check(j == 3, "a getter that failed part-way was served as a complete entry")
